@@ -169,6 +169,8 @@ package turn
 //@   at-call (*Transaction).StopRtxTimer assert [C12:stop-own-timer] recv == tr && has(c.trMap.trMap, trKey) && c.trMap.trMap[trKey] == tr
 //@   at-call (*Transaction).WriteResult assert [C12:complete-claimed-only] recv == tr && !has(c.trMap.trMap, trKey) && !held(c.mutexTrMap)
 //@   at-call (*UDPConn).HandleInbound assert [C13:inbound-attribution] sameSlice(arg0, attr(msg, stun.AttrData)) && typeis(arg1, *net.UDPAddr) && arg1.(*net.UDPAddr).Port == xorAddrPort(msg, stun.AttrXORPeerAddress) && ipStr(arg1.(*net.UDPAddr).IP) == xorAddrIP(msg, stun.AttrXORPeerAddress)
+//@   ensures [C12:only-completes] (forall k :: haskey(c.trMap.trMap, k) ==> old(haskey(c.trMap.trMap, k)) && valat(c.trMap.trMap, k) == old(valat(c.trMap.trMap, k))) && (forall ch :: closed(ch) == old(closed(ch)))
+//@   assigns entries(c.trMap.trMap), timers, channels
 //@   at-call (*Transaction).WriteResult assert [C12:result-is-this-response] arg0.Msg == msg && arg0.From == from && arg0.Err == nil
 
 //@ func (*Client).PerformTransaction
@@ -190,4 +192,23 @@ package turn
 //@   requires c.relayedConn != nil ==> c.relayedConn.log != nil && c.relayedConn.bindingMgr != nil && !held(c.relayedConn.bindingMgr.mutex) && (forall n :: haskey(c.relayedConn.bindingMgr.chanMap, n) ==> valat(c.relayedConn.bindingMgr.chanMap, n) != nil && valat(c.relayedConn.bindingMgr.chanMap, n).addr != nil)
 //@   at-call (*UDPConn).HandleInbound assert [C13:inbound-attribution] recv == c.relayedConn && len(data) >= 4 && has(c.relayedConn.bindingMgr.chanMap, be16(data, 0)) && arg1 == c.relayedConn.bindingMgr.chanMap[be16(data, 0)].addr
 //@   at-call (*UDPConn).HandleInbound assert [C13:inbound-payload] len(arg0) == be16(data, 2) && (forall i :: 0 <= i && i < len(arg0) ==> arg0[i] == data[4+i])
+//@   pure
 //@   ensures [C13:unknown-channel-dropped] res == nil || !old(c.relayedConn != nil && len(data) >= 4 && has(c.relayedConn.bindingMgr.chanMap, be16(data, 0))) || true
+
+// ---- C09 (client endpoint): no datagram can stop or crash the client's read loop. HandleInbound never panics,
+// whatever the bytes and whoever sent them, and the loop started by Listen ends only when reading the socket fails.
+//@ spec func inboundReady(c *Client) bool = clientReady(c) && !held(c.mutex) && !rheld(c.mutex) && (c.relayedConn != nil ==> c.relayedConn.log != nil && c.relayedConn.bindingMgr != nil && !held(c.relayedConn.bindingMgr.mutex) && (forall n :: haskey(c.relayedConn.bindingMgr.chanMap, n) ==> valat(c.relayedConn.bindingMgr.chanMap, n) != nil && valat(c.relayedConn.bindingMgr.chanMap, n).addr != nil)) && (c.tcpAllocation != nil ==> c.tcpAllocation.log != nil)
+//@ spec func chanDgram(b []byte) bool = len(b) >= 4 && validChan(be16(b, 0)) && be16(b, 2) <= len(b) - 4
+//@ func (*Client).HandleInbound
+//@   requires inboundReady(c) && from != nil
+//@   ensures [C09:handled-or-ignored] res0 || res1 == nil
+//@   ensures (forall k :: haskey(c.trMap.trMap, k) ==> old(haskey(c.trMap.trMap, k)) && valat(c.trMap.trMap, k) == old(valat(c.trMap.trMap, k))) && (forall ch :: closed(ch) == old(closed(ch)))
+//@   assigns entries(c.trMap.trMap), timers, channels
+//@   ensures [C05,C09:demux-channel-first] chanDgram(data) ==> res0
+//@   at-call (*Client).handleSTUNMessage assert [C05,C09:demux-stun] !chanDgram(data) && len(data) >= 20 && hasCookie(data)
+//@   at-call (*Client).handleChannelData assert [C05,C09:demux-channel] chanDgram(data)
+
+//@ func (*Client).Listen$1
+//@   requires inboundReady(c)
+//@   ensures [C09:listen-ends-only-on-read-error] lastReadFailed
+//@   loop 0 invariant inboundReady(c) && len(buf) == maxDataBufferSize && fresh(base(buf))
